@@ -8,6 +8,7 @@ import (
 	"fmt"
 	"io"
 	"math"
+	"reflect"
 
 	structform "github.com/elastic/go-structform"
 	"github.com/elastic/go-structform/gotype"
@@ -391,6 +392,7 @@ func runEncode(c *Case, tr *Trace, parse bool) {
 			ev = []Event{}
 		}
 		tr.Calls = append(tr.Calls, Call{Op: "parse", N: len(sk.all), Err: cl, Msg: msg, Ev: ev, Wr: [][]int{}, Dep: []int{}})
+		tr.StrMut = rec.Mutated()
 	}
 }
 
@@ -506,6 +508,7 @@ func runExtCmp(c *Case, tr *Trace) {
 		deps  [][]int
 		errAt int
 		msg   string
+		vals  []VD
 	}
 	run := func(stream []Event) result {
 		var r result
@@ -513,7 +516,19 @@ func runExtCmp(c *Case, tr *Trace) {
 		var dep func() []int
 		var sk *sink
 		var rec *Recorder
-		if consumer == "plain" {
+		var un *gotype.Unfolder
+		var tgt *interface{}
+		if consumer == "unfold" {
+			// the unfolder as a consumer: one interface{} target per top-level value
+			un, _ = gotype.NewUnfolder(nil)
+			tgt = new(interface{})
+			if err := un.SetTarget(tgt); err != nil {
+				r.errAt, r.msg = 1, err.Error()
+				return r
+			}
+			v = structform.EnsureExtVisitor(un)
+			dep = func() []int { return un.VerifDepths() }
+		} else if consumer == "plain" {
 			rec = &Recorder{}
 			v = structform.EnsureExtVisitor(rec)
 			dep = func() []int { return []int{} }
@@ -531,8 +546,17 @@ func runExtCmp(c *Case, tr *Trace) {
 				break
 			}
 			r.deps = append(r.deps, dep())
-			if top.after(&stream[i]) && consumer == "json" {
+			done := top.after(&stream[i])
+			if done && consumer == "json" {
 				sk.all = append(sk.all, '\n')
+			}
+			if done && un != nil {
+				r.vals = append(r.vals, describe(reflect.ValueOf(tgt).Elem()))
+				tgt = new(interface{})
+				if err := un.SetTarget(tgt); err != nil {
+					r.errAt, r.msg = i+1, err.Error()
+					break
+				}
 			}
 		}
 		if sk != nil {
@@ -561,10 +585,18 @@ func runExtCmp(c *Case, tr *Trace) {
 	tr.Extra = map[string]interface{}{
 		"streamB": streamB, "outB": bytesToInts(b.out), "evA": evs(a.ev), "evB": evs(b.ev),
 		"depA": last(a.deps), "depB": last(b.deps), "errA": a.errAt, "errB": b.errAt, "msgA": a.msg, "msgB": b.msg,
+		"valA": vds(a.vals), "valB": vds(b.vals),
 	}
 	if consumer == "json" {
 		tr.NumTab = append(numTabFor(a.out), numTabFor(b.out)...)
 	}
+}
+
+func vds(v []VD) []VD {
+	if v == nil {
+		return []VD{}
+	}
+	return v
 }
 
 // ---------------------------------------------------------------- kind "fault" (C16)
